@@ -90,6 +90,18 @@ for pos, pre in POS.items():
     case('port-rule/write-ff', f"ff-write {kind} of {pos}", exp,
          Mid=[f"@update_ff\ndef blk(): {wsig} <<= s.i", "@update\ndef other(): s.t @= s.i + 1"])
 
+# the rule is per (block, signal): the owner reading its own wire does not make an outside read legal
+OWNER_READS_LEAF = ["@update\ndef leaf_self(): s.o2 @= s.w"]
+OWNER_READS_G = ["@update\ndef g_self(): s.o2 @= s.w"]
+case('port-rule/read', 'read Wire of child that the child reads itself', 'SignalTypeError',
+     Mid=["@update\ndef blk(): s.t @= s.a.w", "@update\ndef other(): s.o @= s.i + 1"], Leaf=OWNER_READS_LEAF)
+case('port-rule/read', 'read Wire of grandchild that the grandchild reads itself', 'SignalTypeError',
+     Mid=["@update\ndef blk(): s.t @= s.a.g.w", "@update\ndef other(): s.o @= s.i + 1"], G=OWNER_READS_G)
+case('port-rule/read', 'own Wire read by two blocks of the owner', None,
+     Mid=["@update\ndef blk(): s.t @= s.w", "@update\ndef other(): s.o @= s.w + 1", "@update\ndef drv(): s.w @= s.i"])
+case('port-rule/write', 'write Wire of child that the child writes itself', 'SignalTypeError|MultiWriterError',
+     Mid=["@update\ndef blk(): s.a.w @= s.i", "@update\ndef other(): s.o @= s.i + 1"], Leaf=["@update\ndef leaf_w(): s.w @= s.i"])
+
 # ---------------------------------------------------------------------------
 # B. port rules for connections.  The net writer is given: a top-level input, a block-written Wire/OutPort of Mid,
 #    a child's OutPort, a constant.  reader rules (documented in the Type 5..9 messages):
@@ -127,6 +139,9 @@ CONN = [
   ('child OutPort -> grandchild InPort', [], 's.b.g.i', 's.a.o', 'SignalTypeError'),
   ('own Wire -> grandchild InPort', DRV_W, 's.a.g.i', 's.w', 'SignalTypeError'),
   ('grandchild OutPort -> own Wire', [], 's.t', 's.a.g.o', 'SignalTypeError'),
+  ('grandchild OutPort -> cousin InPort', [], 's.b.g.i', 's.a.g.o', 'SignalTypeError'),            # hosts two levels apart on both sides: never
+  ('grandchild OutPort -> cousin Wire', [], 's.b.g.w', 's.a.g.o', 'SignalTypeError'),
+  ('child OutPort -> cousin-level InPort of the other child', [], 's.b.g.i', 's.a.o', 'SignalTypeError'),
   ('constant -> own Wire', [], 's.t', '5', None),
   ('constant -> child InPort', [], 's.a.i', '5', None),
   ('constant -> own InPort', [], 's.i', '5', 'SignalTypeError|MultiWriterError'),
@@ -231,6 +246,15 @@ case('two-drivers', 'depth 2: disjoint leaves, middle level only read', None,
      Mid=[W('b1', 's.dp.p.f', 's.i[0:4]'), "connect(s.dp.p.g, s.i[4:8])", "connect(s.dp.q, s.i)", "connect(s.st, s.dp.p)", "connect(s.t, s.dp.q)"])
 case('two-drivers', 'depth 2: disjoint slices of a field, field read whole', None,
      Mid=[W('b1', 's.dp.q[0:4]', 's.i[0:4]'), "connect(s.dp.q[4:8], s.i[4:8])", "connect(s.t, s.dp.q)", "connect(s.dp.p, s.si)"])
+
+# a sequential and a combinational block on nested parts of one signal
+FF = lambda n, tgt, src='s.i': f"@update_ff\ndef {n}(): {tgt} <<= {src}"
+case('two-drivers', 'ff block writes the wire, comb block a slice of it', 'MultiWriterError', Mid=[FF('f1', 's.w'), W('b2', 's.w[0:4]', 's.i[0:4]')])
+case('two-drivers', 'ff block writes the struct, comb block a field', 'MultiWriterError', Mid=[FF('f1', 's.st', 's.si'), W('b2', 's.st.f', 's.i[0:4]')])
+case('two-drivers', 'ff block writes the nested struct, comb block a leaf at depth 2', 'MultiWriterError', Mid=[FF('f1', 's.dp', 'Deep(s.si, s.i)'), W('b2', 's.dp.p.g', 's.i[0:4]')])
+case('two-drivers', 'ff block writes the wire, net drives a slice of it', 'MultiWriterError', Mid=[FF('f1', 's.w'), "connect(s.w[4:8], s.i[0:4])"])
+case('two-drivers', 'two ff blocks write one wire', 'MultiWriterError', Mid=[FF('f1', 's.w'), FF('f2', 's.w', 's.i + 1')])
+case('two-drivers', 'ff block and comb block on different wires', None, Mid=[FF('f1', 's.w'), W('b2', 's.t')])
 
 # a larger legal design exercising every rule at once
 case('legal', 'everything legal at once', None,
